@@ -86,6 +86,17 @@ pub uninterp spec fn vault_of(log: Seq<Rec>) -> VaultV;
 /// (`paths.vault_path(id)` / folder row `id`); `folders`: the key set of the in-memory map of folder
 /// event logs (`self.folders`).
 pub ghost struct ServerV { pub login: Option<VaultV>, pub vaults: Map<VaultId, VaultV>, pub folders: Set<VaultId> }
+/// frames: every stored vault but `id` / every folder-map key but `id` is as before
+pub open spec fn vaults_same_but(o: ServerV, f: ServerV, id: VaultId) -> bool {
+    vaults_same_but2(o, f, id, id)
+}
+pub open spec fn vaults_same_but2(o: ServerV, f: ServerV, id: VaultId, id2: VaultId) -> bool {
+    forall|k: VaultId| #![trigger f.vaults.contains_key(k)] #![trigger f.vaults[k]] k != id && k != id2 ==>
+        f.vaults.contains_key(k) == o.vaults.contains_key(k) && (f.vaults.contains_key(k) ==> f.vaults[k] == o.vaults[k])
+}
+pub open spec fn folders_same_but(o: ServerV, f: ServerV, id: VaultId) -> bool {
+    forall|k: VaultId| k != id ==> #[trigger] f.folders.contains(k) == o.folders.contains(k)
+}
 /// `VaultWriter::set_vault_flags` / `set_vault_name` on the stored vault `id` (unit vaultfile
 /// [set_flags_view] [set_name_view]: the header field is rewritten, nothing else).  A vault that is not
 /// stored: the file system refuses (Err: no file), the database updates no row (Ok, nothing changes).
@@ -561,7 +572,7 @@ pub trait ServerAccountStorage: StorageEventLogs {
             final(self).touched() == old(self).touched(), final(self).cache() == old(self).cache(),
             r is Ok ==> final(self).store() == (ServerV { vaults: old(self).store().vaults.insert(vault@.id, vault@), ..old(self).store() }),
             final(self).store().login == old(self).store().login && final(self).store().folders == old(self).store().folders,
-            final(self).store().vaults.remove(vault@.id) == old(self).store().vaults.remove(vault@.id);
+            vaults_same_but(old(self).store(), final(self).store(), vault@.id);
     /// `write_login_vault` (R9: `&self` in the source).  filesystem.rs:250
     /// `vfs::write(paths.identity_vault(), encode(vault))`; database.rs:333 `upsert_login_folder`
     fn write_login_vault(&mut self, vault: &Vault) -> (r: Result<()>)
@@ -585,7 +596,7 @@ pub trait ServerAccountStorage: StorageEventLogs {
             final(self).touched() == old(self).touched(), final(self).cache() == old(self).cache(),
             r is Ok ==> final(self).store() == set_flags(old(self).store(), *folder_id, flags),
             final(self).store().login == old(self).store().login && final(self).store().folders == old(self).store().folders,
-            final(self).store().vaults.remove(*folder_id) == old(self).store().vaults.remove(*folder_id);
+            vaults_same_but(old(self).store(), final(self).store(), *folder_id);
     /// `replace_folder` (R9: `&self` in the source; it rewrites the folder's stored events
     /// through a NEW event-log handle: `FolderEventLog::new_folder(..)`,
     /// `event_log.replace_all_events(diff)`, reduce + build(false) the vault, returns the handle
@@ -602,7 +613,7 @@ pub trait ServerAccountStorage: StorageEventLogs {
                 && final(self).logv(EventLogType::Folder(*folder_id)) == rv(diff.patch.0@)
                 && x.1@ == vault_of(x.0.recs()),
             final(self).store().login == old(self).store().login && final(self).store().folders == old(self).store().folders,
-            final(self).store().vaults.remove(*folder_id) == old(self).store().vaults.remove(*folder_id);
+            vaults_same_but(old(self).store(), final(self).store(), *folder_id);
     /// creates / overwrites the folder `id` from an encoded vault (its log is cleared and refilled).
     /// filesystem.rs:355 / database.rs:451: `decode(buffer)?`, `FolderReducer::split`, `id != vault.id()`
     /// is refused (VaultIdentifierMismatch), the head-only vault is written under `id`,
@@ -615,8 +626,8 @@ pub trait ServerAccountStorage: StorageEventLogs {
             r is Ok ==> vault_dec(buffer@) is Some && (vault_dec(buffer@)->Some_0).id == *id
                 && final(self).store() == import_vault(old(self).store(), *id, buffer@),
             final(self).store().login == old(self).store().login,
-            final(self).store().vaults.remove(*id) == old(self).store().vaults.remove(*id),
-            final(self).store().folders.remove(*id) == old(self).store().folders.remove(*id);
+            vaults_same_but(old(self).store(), final(self).store(), *id),
+            folders_same_but(old(self).store(), final(self).store(), *id);
     /// filesystem.rs:411 / database.rs:537: `VaultWriter::new(target, id).set_vault_name(name)`, see
     /// `set_name`; no event log is written
     fn rename_folder(&mut self, id: &VaultId, name: &str) -> (r: Result<()>)
@@ -625,7 +636,7 @@ pub trait ServerAccountStorage: StorageEventLogs {
             final(self).touched() == old(self).touched(), final(self).cache() == old(self).cache(),
             r is Ok ==> final(self).store() == set_name(old(self).store(), *id, name@),
             final(self).store().login == old(self).store().login && final(self).store().folders == old(self).store().folders,
-            final(self).store().vaults.remove(*id) == old(self).store().vaults.remove(*id);
+            vaults_same_but(old(self).store(), final(self).store(), *id);
     /// filesystem.rs:430 / database.rs:508: `remove_vault_file(id)` (vault and event log), then
     /// `self.folders.remove(id)`.  On Err (a later step: files folder, audit) both may be gone already.
     fn delete_folder(&mut self, id: &VaultId) -> (r: Result<()>)
@@ -634,8 +645,8 @@ pub trait ServerAccountStorage: StorageEventLogs {
             final(self).touched() == old(self).touched(), final(self).cache() == old(self).cache(),
             r is Ok ==> final(self).store() == drop_folder(old(self).store(), *id),
             final(self).store().login == old(self).store().login,
-            final(self).store().vaults.remove(*id) == old(self).store().vaults.remove(*id),
-            final(self).store().folders.remove(*id) == old(self).store().folders.remove(*id);
+            vaults_same_but(old(self).store(), final(self).store(), *id),
+            folders_same_but(old(self).store(), final(self).store(), *id);
 }
 
 /// when does `patch_checked(checkpoint, patch)` on a log with rows `l` apply the patch
